@@ -25,6 +25,7 @@ CONSTANTS NPS,          \* ticks per second                      (code: 10^9)
           CeilOn,       \* FALSE: TimeUntilSend without the round-up
           CapOn,        \* FALSE: Budget not capped at the maximum burst
           ConsumeOn,    \* FALSE: SentPacket does not consume budget
+          StampOn,      \* FALSE: SentPacket of a packet larger than the budget does not set lastSentTime
           ClampN, ClampD, \* ackRate floor (code: 4/5)
           StaleOn,      \* FALSE: slots older than five seconds are still counted
           FloorOn       \* FALSE: window not floored at one datagram
@@ -83,7 +84,7 @@ TrySend(size, late) ==
      IN IF ok THEN
           /\ nSend < MaxSends /\ late = 0
           /\ bals' = (IF ~ConsumeOn THEN b ELSE IF size > b THEN 0 ELSE b - size)
-          /\ last' = now /\ now' = now /\ nSend' = nSend + 1
+          /\ last' = (IF size > b /\ ~StampOn THEN last ELSE now) /\ now' = now /\ nSend' = nSend + 1
           /\ mon' = MonStep(MonStep(mon, e1, 0),
                             [ev |-> "Send", scn |-> 0, t |-> T2(now), size |-> size, paced |-> TRUE], 0)
           /\ hist' = Append(hist, <<"try", size, late>>)
@@ -98,11 +99,13 @@ TrySend(size, late) ==
              /\ UNCHANGED <<bals, last, nSend>>
   /\ UNCHANGED <<bps, nocomp, mds, slots, rnum, rden, granted, nAck>>
 
-Unpaced(size) ==                                                         \* ACK-only packet: not gated by pacing
+\* a packet that is not gated by pacing: ACK-only packet (1 byte) or PTO / tail-loss probe (a full datagram),
+\* possibly larger than the budget: SentPacket empties the bucket and restarts accrual at now    pacer.go:32-40
+Unpaced(size) ==
   /\ Op /\ nSend < MaxSends
   /\ LET b == Budget(now) IN
        /\ bals' = (IF ~ConsumeOn THEN b ELSE IF size > b THEN 0 ELSE b - size)
-       /\ last' = now
+       /\ last' = (IF size > b /\ ~StampOn THEN last ELSE now)
        /\ mon' = MonStep(mon, [ev |-> "Send", scn |-> 0, t |-> T2(now), size |-> size, paced |-> FALSE], 0)
   /\ nSend' = nSend + 1
   /\ hist' = Append(hist, <<"unpaced", size>>)
@@ -156,7 +159,7 @@ Init == /\ now = 1 /\ bps \in BpsSet /\ nocomp \in BOOLEAN /\ mds = Mds0
 
 Next == \/ \E k \in Steps : Advance(k)
         \/ \E sz \in {1, mds} : \E late \in {0, 1} : TrySend(sz, late)
-        \/ Unpaced(1)
+        \/ \E sz \in {1, mds} : Unpaced(sz)
         \/ \E b \in Batches : AckLoss(b[1], b[2])
         \/ \E v \in MdsUp : SetMDS(v)
         \/ \E r \in Rtts : \E f \in {0, mds - 1} : Window(r, f)
